@@ -17,15 +17,25 @@ Proof ladder of the design and how far it is climbed (see notes/C03.md):
           constructors) on the syntactic-row path, w.r.t. the declarative system `HasType`
           `unify_rows_bridge`, `infer_rows_bridge`, `infer_sound_gluon_partial`: the EXECUTED model
           (by-label path on) coincides with the syntactic one on projection-free programs, hence is sound
-  rung 4  infer_alpha / infer_unused_let / infer_annot_self (the three stability clauses): only the
-          declarative half of the unused-binding clause is proved (`unused_let_declarative_partial`)
-  rung 5  infer_complete_principal : HasType Δ e τ → ∃ τ₀, infer … = ok τ₀ ∧ τ₀ ⊒ τ
-          proved on the let-free, projection-free fragment, up to fuel: `infer_complete_principal_partial`,
-          `infer_principal_partial`, `infer_reject_untypable_partial`, `infer_principal_gluon_partial`
-          rungs 4–5 are NOT proved for `infer` (see the comment at the end of this file for what
-          is missing); on the implementation they are what the oracle of harness/src/bin/c03.rs
-          checks (independent algorithm W + the three metamorphic transformations), and
-          model = implementation is checked by exact correspondence.
+  rung 5  `infer_complete_principal` (round 5): on the projection-free ML fragment — var, lam, app, LET WITH
+          GENERALISATION, literals, `#Int<`, if, record/tuple literals, arrays, constructors — a typable
+          closed program is accepted for every sufficiently large unification fuel, always with the same
+          result, the reported type is a typing and every typing is an instance of it (no fuel disjunct:
+          stated for `Proofs.inferF`, the fuel-parametrised copy of `infer`; `infer_is_inferF`: at the
+          executed fuel the copy IS `infer`; `infer_fuel_mono`: more fuel never changes an answer).
+          For `infer` itself: `infer_principal` (an accepted program gets THE principal type),
+          `infer_reject_untypable` (a rejection other than `fuel` means "no typing"), `infer_principal_gluon`
+          (the same for the executed model, by-label row path on).  Projection stays out: with syntactic
+          rows the statement is false for it.
+          `infer_terminates` (every program, some fuel gives a stable answer other than `fuel`),
+          `infer_decides_typability` (on the fragment: accepted at large fuel iff typable).
+  rung 4  the stability clauses on `infer` itself:
+          `infer_alpha` — α-equivalent closed programs give LITERALLY the same result (all constructs, both
+          row modes); `infer_unused_let` — with an unused binding the reported types are instances of each
+          other and acceptance does not change (fragment of rung 5); `canon_equiv`, `inferTop_unused_let`,
+          `inferTop_unused_let_gluon`: hence the canonical answers are EQUAL; `infer_annot_self`: the model has no annotation construct.
+          The round-4 statements (`…_partial`, let-free fragment, up to fuel) are kept; they are now
+          corollaries.
 
   With gluon's by-label row path switched on, rung 1 is FALSE for the unchanged code:
   `unify_rows_unsound_fails`, `infer_row_tail_unlinked_fails` (known finding
@@ -38,6 +48,13 @@ import GluonModel.Proofs.HMSound
 import GluonModel.Proofs.HMBridge
 import GluonModel.Proofs.HMStab
 import GluonModel.Proofs.HMComplete
+import GluonModel.Proofs.HMFuel
+import GluonModel.Proofs.HMFuelMono
+import GluonModel.Proofs.HMPrincipal
+import GluonModel.Proofs.HMAlpha
+import GluonModel.Proofs.HMCanon
+import GluonModel.Proofs.HMFuelTerm
+import GluonModel.Proofs.HMDecide
 
 namespace GluonModel.Props.C03
 open GluonModel.HM
@@ -163,51 +180,231 @@ theorem infer_sound_gluon_partial (e : Expr) (τ : Ty) (S : Subst) (n' : Nat)
   rw [infer_rows_bridge e 0 hp] at h
   exact inferTop_sound e τ S n' h
 
-/-- Rung 5 on the let-free, projection-free fragment (var, lam, app, literals, `#Int<`, if,
-    record/tuple literals, arrays, constructors): completeness and principality.  Every
+/-! ### Rung 5: completeness and principality on the ML fragment with `let` (round 5) -/
+
+/-- The fuel-parametrised copy `Proofs.inferF` (HMFuel.lean: `infer` clause by clause, the constant
+    `unifyFuel` replaced by a parameter) IS the model's `infer` at the executed fuel — for both row
+    modes and all constructs. -/
+theorem infer_is_inferF (rows : Bool) (Γ : Env) (e : Expr) (S : Subst) (n : Nat) :
+    Proofs.inferF rows unifyFuel Γ e S n = infer rows Γ e S n :=
+  Proofs.inferF_unifyFuel rows e Γ S n
+
+/-- More unification fuel never changes an answer of inference other than `fuel`. -/
+theorem infer_fuel_mono (fuel fuel' : Nat) (hle : fuel ≤ fuel') (Γ : Env) (e : Expr) (S : Subst) (n : Nat)
+    (r : Except UErr (Ty × Subst × Nat)) (h : Proofs.inferF false fuel Γ e S n = r)
+    (hr : r ≠ .error .fuel) : Proofs.inferF false fuel' Γ e S n = r :=
+  Proofs.inferF_mono fuel fuel' hle e Γ S n r h hr
+
+/-- Soundness at every fuel (what `infer_sound` says, for the copy). -/
+theorem inferF_sound (fuel : Nat) (Γ : Env) (e : Expr) (n : Nat) (τ : Ty) (S : Subst) (n' : Nat)
+    (h : Proofs.inferF false fuel Γ e Subst.id n = .ok (τ, S, n')) :
+    HasType (denote S Γ) e (τ.subst S) :=
+  Proofs.inferF_sound fuel Γ e n τ S n' h
+
+/-- COMPLETENESS AND PRINCIPALITY, `let` with generalisation included, no fuel disjunct: a typable
+    closed program of the ML fragment (everything but field projection) is accepted for every
+    sufficiently large unification fuel, always with the same result; the reported type is a typing and
+    every typing is an instance of it.  (Projection is excluded because the statement is false for it
+    with syntactic rows: `(\r -> r.y) { x = 1, y = 2 }`.) -/
+theorem infer_complete_principal (e : Expr) (τ₀ : Ty) (hfr : Proofs.NoProj e) (h : HasType [] e τ₀) :
+    ∃ τ S n' N, (∀ fuel, N ≤ fuel → Proofs.inferF false fuel [] e Subst.id 0 = .ok (τ, S, n')) ∧
+      HasType [] e (τ.subst S) ∧ ∀ τ', HasType [] e τ' → ∃ Q : Subst, τ' = (τ.subst S).subst Q :=
+  Proofs.inferF_complete_principal e hfr τ₀ h
+
+/-- `infer` itself (executed fuel): the type reported for an accepted program of the fragment is THE
+    principal type — a typing of which every typing is an instance. -/
+theorem infer_principal (e : Expr) (τ : Ty) (S : Subst) (n' : Nat) (hfr : Proofs.NoProj e)
+    (h : infer false [] e Subst.id 0 = .ok (τ, S, n')) :
+    HasType [] e (τ.subst S) ∧ ∀ τ', HasType [] e τ' → ∃ Q : Subst, τ' = (τ.subst S).subst Q :=
+  Proofs.infer_principal_noProj e τ S n' hfr h
+
+/-- `infer` itself: a rejection other than `fuel` of a program of the fragment means it has no typing
+    (so acceptance of it by any checker would be unsound w.r.t. `HasType`). -/
+theorem infer_reject_untypable (e : Expr) (err : UErr) (hfr : Proofs.NoProj e) (he : err ≠ .fuel)
+    (h : infer false [] e Subst.id 0 = .error err) : ∀ τ', ¬ HasType [] e τ' :=
+  Proofs.infer_reject_noProj e err hfr he h
+
+/-- The same for the EXECUTED model (gluon's by-label row path on), `let` included. -/
+theorem infer_principal_gluon (e : Expr) (τ : Ty) (S : Subst) (n' : Nat) (hp : Proofs.ProjFree e)
+    (h : infer true [] e Subst.id 0 = .ok (τ, S, n')) :
+    HasType [] e (τ.subst S) ∧ ∀ τ', HasType [] e τ' → ∃ Q : Subst, τ' = (τ.subst S).subst Q := by
+  rw [infer_rows_bridge e 0 hp] at h
+  exact infer_principal e τ S n' (Proofs.noProj_of_projFree e hp) h
+
+/-- … and its rejections (other than `fuel`) are of untypable programs only. -/
+theorem infer_reject_untypable_gluon (e : Expr) (err : UErr) (hp : Proofs.ProjFree e) (he : err ≠ .fuel)
+    (h : infer true [] e Subst.id 0 = .error err) : ∀ τ', ¬ HasType [] e τ' := by
+  rw [infer_rows_bridge e 0 hp] at h
+  exact infer_reject_untypable e err (Proofs.noProj_of_projFree e hp) he h
+
+/-! Non-vacuity: the let-polymorphic program `let id = \x -> x in (id 1, id "a")` and the program
+    `\f -> let g = \y -> f y in (g 1, g "a")` (rejected: `f`'s variable is not generalised). -/
+def letWitness : Expr :=
+  .letE "id" (.lam "x" (.var "x"))
+    (.rcd (.fcons "_0" (.app (.var "id") (.int 1)) (.fcons "_1" (.app (.var "id") (.str "a")) .fnil)))
+def letReject : Expr :=
+  .lam "f" (.letE "g" (.lam "y" (.app (.var "f") (.var "y")))
+    (.rcd (.fcons "_0" (.app (.var "g") (.int 1)) (.fcons "_1" (.app (.var "g") (.str "a")) .fnil))))
+
+example : Proofs.NoProj letWitness := by simp [letWitness, Proofs.NoProj]
+example : Proofs.ProjFree letWitness := by simp [letWitness, Proofs.ProjFree, Proofs.isFields]
+example : ∃ τ S n', infer false [] letWitness Subst.id 0 = .ok (τ, S, n') ∧
+    τ.subst S = tRec (.ext "_0" tInt (.ext "_1" tString .empty)) := ⟨_, _, _, rfl, rfl⟩
+/-- hence `(Int, String)` is the ONLY type of the let-polymorphic witness -/
+example (τ' : Ty) (h : HasType [] letWitness τ') : τ' = tRec (.ext "_0" tInt (.ext "_1" tString .empty)) := by
+  obtain ⟨Q, hQ⟩ := (infer_principal letWitness _ _ _ (by simp [letWitness, Proofs.NoProj]) rfl).2 τ' h
+  rw [hQ]; rfl
+example : infer false [] letReject Subst.id 0 = .error .clash := rfl
+/-- the monomorphic use of a lambda-bound `f` at two types has NO typing (let does not generalise
+    what is free in the environment) -/
+example : ¬ ∃ τ', HasType [] letReject τ' := by
+  rintro ⟨τ', h⟩
+  exact infer_reject_untypable letReject .clash (by simp [letReject, Proofs.NoProj]) (by decide) rfl τ' h
+
+/-- Inference TERMINATES, for every program (typable or not, projection included) and every start
+    state: from some unification fuel on the answer is one and the same, and it is not `fuel`. -/
+theorem infer_terminates (Γ : Env) (e : Expr) (S : Subst) (n : Nat) :
+    ∃ N r, r ≠ .error .fuel ∧ ∀ fuel, N ≤ fuel → Proofs.inferF false fuel Γ e S n = r :=
+  Proofs.inferF_total Γ e S n
+
+/-- On the ML fragment with `let` inference DECIDES typability: for every sufficiently large fuel a
+    closed program is accepted iff it has a typing in the declarative system. -/
+theorem infer_decides_typability (e : Expr) (hfr : Proofs.NoProj e) :
+    ∃ N, ∀ fuel, N ≤ fuel →
+      ((∃ τ', HasType [] e τ') ↔ ∃ τ S n', Proofs.inferF false fuel [] e Subst.id 0 = .ok (τ, S, n')) :=
+  Proofs.inferF_decides e hfr
+
+-- both sides of the equivalence occur: `letWitness` is typable and accepted, `letReject` is neither
+example : ∃ τ', HasType [] letWitness τ' :=
+  ⟨_, (infer_principal letWitness _ _ _ (by simp [letWitness, Proofs.NoProj]) rfl).1⟩
+
+/-! ### Rung 4: the stability clauses on `infer` itself -/
+
+/-- Renaming bound variables: α-equivalent closed programs (`Proofs.Alpha []`: the binder names are
+    paired position by position, every variable refers to the same binder on both sides) give LITERALLY
+    the same result — type, substitution and counter — for every construct of the model and both row
+    modes (so also for the executed model and for programs with projection). -/
+theorem infer_alpha (rows : Bool) (e e' : Expr) (h : Proofs.Alpha [] e e') (S : Subst) (n : Nat) :
+    infer rows [] e S n = infer rows [] e' S n :=
+  Proofs.infer_alpha_aux rows h [] [] S n Proofs.EnvPair.nil
+
+/-- … hence the canonical answers coincide. -/
+theorem inferTop_alpha (rows : Bool) (e e' : Expr) (h : Proofs.Alpha [] e e') :
+    inferTop rows e = inferTop rows e' := by
+  simp only [inferTop, infer_alpha rows e e' h]
+
+/-- `\x -> \x -> let y = x in y`  ~  `\a -> \b -> let x = b in x` (shadowing on the left only) -/
+example : Proofs.Alpha [] (.lam "x" (.lam "x" (.letE "y" (.var "x") (.var "y"))))
+    (.lam "a" (.lam "b" (.letE "x" (.var "b") (.var "x")))) := by
+  refine .lam _ _ _ _ _ (.lam _ _ _ _ _ (.letE _ _ _ _ _ _ _ (.var _ _ _ (.here _ _ _)) (.var _ _ _ (.here _ _ _))))
+/-- … but NOT `\x -> \y -> x` ~ `\a -> \b -> b` -/
+example : ¬ Proofs.Alpha [] (.lam "x" (.lam "y" (.var "x"))) (.lam "a" (.lam "b" (.var "b"))) := by
+  intro h
+  cases h with
+  | lam _ _ _ _ _ h =>
+    cases h with
+    | lam _ _ _ _ _ h =>
+      cases h with
+      | var _ _ _ h =>
+        rcases Proofs.alphaVar_cons_inv h with ⟨h₁, _⟩ | ⟨_, h₂, _⟩
+        · exact absurd h₁ (by decide)
+        · exact h₂ rfl
+
+/-- Adding an unused binding (`x` not free in `b`), on `infer` itself, ML fragment with `let`:
+    (1) if both programs are accepted, the reported types are instances of each other (equal up to a
+    renaming of type variables); (2) if the `let` is accepted, the body is not rejected (other than by
+    `fuel`); (3) if the body is accepted and the bound expression is typable at all, the `let` is not
+    rejected (other than by `fuel`).  (`inferTop_unused_let` below: hence the canonical answers are equal.) -/
+theorem infer_unused_let (x : String) (e b : Expr) (hx : x ∉ Proofs.fv b)
+    (hfr : Proofs.NoProj (.letE x e b)) :
+    (∀ τ S n τ₂ S₂ n₂, infer false [] b Subst.id 0 = .ok (τ, S, n) →
+        infer false [] (.letE x e b) Subst.id 0 = .ok (τ₂, S₂, n₂) →
+        Proofs.TyEquiv (τ.subst S) (τ₂.subst S₂)) ∧
+    (∀ τ₂ S₂ n₂, infer false [] (.letE x e b) Subst.id 0 = .ok (τ₂, S₂, n₂) →
+        ∀ err, infer false [] b Subst.id 0 = .error err → err = .fuel) ∧
+    (∀ τ S n, infer false [] b Subst.id 0 = .ok (τ, S, n) → (∃ τ₁, HasType [] e τ₁) →
+        ∀ err, infer false [] (.letE x e b) Subst.id 0 = .error err → err = .fuel) :=
+  Proofs.infer_unused_let_noProj x e b hx hfr
+
+/-- Types that are instances of each other have the same canonical form (`canon`: variables numbered
+    by first occurrence — what the driver prints and the harness compares). -/
+theorem canon_equiv (a b : Ty) (h : Proofs.TyEquiv a b) : canon a = canon b :=
+  Proofs.canon_of_tyEquiv a b h
+
+/-- Hence: if the program with the unused binding and the program without it are both accepted, the
+    model's canonical ANSWER is the same (acceptance itself: clauses (2), (3) of `infer_unused_let`). -/
+theorem inferTop_unused_let (x : String) (e b : Expr) (hx : x ∉ Proofs.fv b)
+    (hfr : Proofs.NoProj (.letE x e b))
+    (τ : Ty) (S : Subst) (n : Nat) (τ₂ : Ty) (S₂ : Subst) (n₂ : Nat)
+    (h₁ : infer false [] b Subst.id 0 = .ok (τ, S, n))
+    (h₂ : infer false [] (.letE x e b) Subst.id 0 = .ok (τ₂, S₂, n₂)) :
+    inferTop false (.letE x e b) = inferTop false b :=
+  Proofs.inferTop_unused_let x e b hx hfr τ S n τ₂ S₂ n₂ h₁ h₂
+
+/-- The same for the EXECUTED model (by-label row path on). -/
+theorem inferTop_unused_let_gluon (x : String) (e b : Expr) (hx : x ∉ Proofs.fv b)
+    (hp : Proofs.ProjFree (.letE x e b))
+    (τ : Ty) (S : Subst) (n : Nat) (τ₂ : Ty) (S₂ : Subst) (n₂ : Nat)
+    (h₁ : infer true [] b Subst.id 0 = .ok (τ, S, n))
+    (h₂ : infer true [] (.letE x e b) Subst.id 0 = .ok (τ₂, S₂, n₂)) :
+    inferTop true (.letE x e b) = inferTop true b := by
+  rw [Proofs.inferTop_bridge _ hp, Proofs.inferTop_bridge b hp.2]
+  rw [infer_rows_bridge b 0 hp.2] at h₁
+  rw [infer_rows_bridge _ 0 hp] at h₂
+  exact inferTop_unused_let x e b hx (Proofs.noProj_of_projFree _ hp) τ S n τ₂ S₂ n₂ h₁ h₂
+
+-- `a -> b` and `c -> a` (variables 0,1 / 2,0) are instances of each other; both print as `t0 -> t1`
+example : Proofs.TyEquiv (fn (.var 0) (.var 1)) (fn (.var 2) (.var 0)) :=
+  ⟨⟨fun v => if v = 0 then .var 2 else .var 0, rfl⟩, ⟨fun v => if v = 2 then .var 0 else .var 1, rfl⟩⟩
+example : inferTop true (.letE "u" .anil (.lam "z" (.asnoc .anil (.var "z")))) =
+    inferTop true (.lam "z" (.asnoc .anil (.var "z"))) := rfl
+
+/-- an instance: `let u = [] in \z -> [z]` against `\z -> [z]` -/
+example : "u" ∉ Proofs.fv (.lam "z" (.asnoc .anil (.var "z"))) ∧
+    Proofs.NoProj (.letE "u" .anil (.lam "z" (.asnoc .anil (.var "z")))) := by
+  constructor
+  · decide
+  · simp [Proofs.NoProj]
+
+/-! ### The round-4 statements (let-free fragment, up to fuel), now corollaries -/
+
+/-- Rung 5 on the let-free, projection-free fragment, for `infer` at the executed fuel: every
     declarative typing of a closed program is an instance of the type `infer` reports — unless the
-    constant unification fuel runs out, which is a distinct answer (`fuel`).
-    `_partial`: (a) `let` is excluded (needs, on top of the freshness invariant proved here, that the
-    range of the threaded substitution stays below the counter and that a generalised scheme denotes
-    exactly the typings of the bound expression); (b) projection is excluded — with syntactic rows the
-    statement is FALSE for it (`HasField` finds a field anywhere, syntactic unification only at the
-    head: `(\r -> r.y) { x = 1, y = 2 }`); (c) "up to fuel": `infer` uses the constant `unifyFuel`. -/
+    constant unification fuel runs out, which is a distinct answer (`fuel`).  Superseded by
+    `infer_complete_principal` / `infer_principal` (with `let`, no fuel disjunct); kept under its name. -/
 theorem infer_complete_principal_partial (e : Expr) (τ' : Ty) (hfr : Proofs.LetProjFree e)
     (h : HasType [] e τ') :
     infer false [] e Subst.id 0 = .error .fuel ∨
     ∃ τ S n', infer false [] e Subst.id 0 = .ok (τ, S, n') ∧ ∃ Q : Subst, τ' = (τ.subst S).subst Q :=
-  Proofs.infer_complete_principal_closed e τ' hfr h
+  Proofs.infer_complete_noProj e τ' (Proofs.noProj_of_letProjFree e hfr) h
+
+/-- the same with `let` (projection-free fragment) -/
+theorem infer_complete_principal_exec (e : Expr) (τ' : Ty) (hfr : Proofs.NoProj e)
+    (h : HasType [] e τ') :
+    infer false [] e Subst.id 0 = .error .fuel ∨
+    ∃ τ S n', infer false [] e Subst.id 0 = .ok (τ, S, n') ∧ ∃ Q : Subst, τ' = (τ.subst S).subst Q :=
+  Proofs.infer_complete_noProj e τ' hfr h
 
 /-- The reported type is THE principal type on that fragment: it is a typing, and every typing is
     an instance of it. -/
 theorem infer_principal_partial (e : Expr) (τ : Ty) (S : Subst) (n' : Nat)
     (hfr : Proofs.LetProjFree e) (h : infer false [] e Subst.id 0 = .ok (τ, S, n')) :
-    HasType [] e (τ.subst S) ∧ ∀ τ', HasType [] e τ' → ∃ Q : Subst, τ' = (τ.subst S).subst Q := by
-  refine ⟨inferTop_sound e τ S n' h, fun τ' hτ' => ?_⟩
-  rcases infer_complete_principal_partial e τ' hfr hτ' with hf | ⟨τ₂, S₂, n₂, h₂, Q, hQ⟩
-  · rw [h] at hf; cases hf
-  · rw [h] at h₂
-    injection h₂ with h₂; injection h₂ with h₃ h₂; injection h₂ with h₄ _
-    subst h₃; subst h₄
-    exact ⟨Q, hQ⟩
+    HasType [] e (τ.subst S) ∧ ∀ τ', HasType [] e τ' → ∃ Q : Subst, τ' = (τ.subst S).subst Q :=
+  infer_principal e τ S n' (Proofs.noProj_of_letProjFree e hfr) h
 
 /-- A rejection (other than by fuel) of a program of the fragment means it has no typing at all:
     acceptance by any checker of such a program would be unsound w.r.t. `HasType`. -/
 theorem infer_reject_untypable_partial (e : Expr) (err : UErr) (hfr : Proofs.LetProjFree e)
     (he : err ≠ .fuel) (h : infer false [] e Subst.id 0 = .error err) :
-    ∀ τ', ¬ HasType [] e τ' := by
-  intro τ' hτ'
-  rcases infer_complete_principal_partial e τ' hfr hτ' with hf | ⟨τ₂, S₂, n₂, h₂, _⟩
-  · rw [h] at hf; injection hf with hf; exact he hf
-  · rw [h] at h₂; cases h₂
+    ∀ τ', ¬ HasType [] e τ' :=
+  infer_reject_untypable e err (Proofs.noProj_of_letProjFree e hfr) he h
 
 /-- The same for the EXECUTED model (by-label row path on), via the bridge. -/
 theorem infer_principal_gluon_partial (e : Expr) (τ : Ty) (S : Subst) (n' : Nat)
-    (hfr : Proofs.LetProjFree e) (hp : Proofs.ProjFree e)
+    (_hfr : Proofs.LetProjFree e) (hp : Proofs.ProjFree e)
     (h : infer true [] e Subst.id 0 = .ok (τ, S, n')) :
-    HasType [] e (τ.subst S) ∧ ∀ τ', HasType [] e τ' → ∃ Q : Subst, τ' = (τ.subst S).subst Q := by
-  rw [infer_rows_bridge e 0 hp] at h
-  exact infer_principal_partial e τ S n' hfr h
+    HasType [] e (τ.subst S) ∧ ∀ τ', HasType [] e τ' → ∃ Q : Subst, τ' = (τ.subst S).subst Q :=
+  infer_principal_gluon e τ S n' hp h
 
 /-! Non-vacuity: `\f -> \x -> (f x, [x])` is in the fragment, is accepted, and e.g. the typing at
     `(Int -> String) -> Int -> (String, Array Int)` is an instance of the reported type. -/
@@ -289,19 +486,11 @@ example : inferTop true (.lam "f" (.letE "g" (.lam "y" (.app (.var "f") (.var "y
     none := rfl
 
 /-
-Not proved (rungs 4–5), with what is missing:
+Still not proved, with what is missing:
 
-  infer_complete_principal :
-      HasType (denote R Γ) e τ' → ∃ τ S n', infer false Γ e Subst.id n = .ok (τ, S, n') ∧ ∃ Q, τ' = (τ.subst S).subst Q
-    needs (a) the freshness invariant (every variable of Γ, of the range of S and of the equations is
-    below the counter, so a solution can be extended on the new variables), (b) `infer` parametrised by
-    the unification fuel (with the constant `unifyFuel` the statement is false for astronomically large
-    types; `unify_complete` gives the fuel), (c) for `let`: that the generalised scheme denotes exactly the
-    set of types of the right-hand side (principal-type property used inductively).
-  infer_unused_let, infer_alpha : equality of the canonical results of two runs whose counters and
-    substitutions differ; needs equivariance of `infer` under renaming of type variables (the order of
-    `generalize`'s variable list depends on the whole environment).  With completeness they would follow
-    from the declarative facts, which are easy (weakening, α-invariance of `HasType`).
+  completeness with field projection: FALSE for the model with syntactic rows (`HasField` finds a field
+    anywhere, syntactic unification only at the head: `(\r -> r.y) { x = 1, y = 2 }` has a declarative typing and
+    is rejected by `infer false`); it needs a correct by-label row unifier — the executed one is the known finding.
   infer_annot_self : the model has no annotation construct.
   For programs WITH field projection `infer_sound` speaks about the model with syntactic rows only; the
   executed model (`rows = true`) is tied to it through `infer_rows_bridge` on projection-free programs and
